@@ -35,7 +35,7 @@ def fb(x):
     return "f:%016x" % struct.unpack(">Q", struct.pack(">d", x))[0]
 
 
-THR = [0.0, 0.5, 1.0, 1.0, 1.5, 2.0, 2.0, 3.0, 3.0, 5.0, 7.25, 10.0, 2.9999999999999996, 3.0000000000000004, 100.0, 1e6]
+THR = [0.0, 0.5, 1.0, 1.0, 1.5, 2.0, 2.0, 3.0, 3.0, 5.0, 7.25, 10.0, 2.9999999999999996, 3.0000000000000004, 100.0, 1e6, 3e9, 2.0 ** 31]
 THR_ODD = [fb(float("inf")), "f:7ff8000000000001", "f:fff8000000000000", fb(-1.0), fb(-0.0), "f:0000000000000001", fb(5e-324), fb(-1e-300),
            fb(float("-inf")), fb(2.0 ** 40), fb(0.1)]
 IV_VIEW = [0, 0, 1000, 1000, 500, 2000, 2500, 5000, 10000]
@@ -86,8 +86,16 @@ def mutate_rules(rng, rules, nres):
             r[1] = fb(rng.choice(THROTTLE_T))
         else:
             tv = thr_val(r[1])
-            r[1] = rng.choice([fb(rng.choice(THR)), fb(tv + 1) if tv == tv and tv < 1e9 else fb(1.0), fb(max(0.0, tv - 1)) if tv == tv and tv < 1e9 else fb(2.0),
-                               "f:%016x" % (int(r[1][2:], 16) + 1) if 0 < int(r[1][2:], 16) < 0x7fe0000000000000 else fb(3.0)])
+            opts = [fb(rng.choice(THR)), fb(tv + 1) if tv == tv and tv < 1e9 else fb(1.0), fb(max(0.0, tv - 1)) if tv == tv and tv < 1e9 else fb(2.0),
+                    "f:%016x" % (int(r[1][2:], 16) + 1) if 0 < int(r[1][2:], 16) < 0x7fe0000000000000 else fb(3.0)]
+            if tv == tv and 0 < tv < 1e15 and rng.random() < 0.5:
+                # tiny changes around the tolerance of Float64Equals (absolute 1e-8; a relative tolerance would be 1e-8*T):
+                # a change below the tolerance keeps the OLD rule in force, one above it installs the new threshold
+                what = "threshold-tiny"
+                d = rng.choice([0.5e-8, 0.99e-8, 1.01e-8, 2e-8, 0.5e-8 * tv, 0.99e-8 * tv, 1.01e-8 * tv, 0.3e-8 * tv, 20.0 if tv > 1e9 else 2e-8])
+                nv = tv - d if rng.random() < 0.75 else tv + d
+                opts = [fb(max(0.0, nv))]
+            r[1] = rng.choice(opts)
     elif k < 0.57:
         what = "interval"
         r[2] = rng.choice(IV_ALL if len(r) == 4 else [0, 1000, 500, 2000])
@@ -109,8 +117,10 @@ def mutate_rules(rng, rules, nres):
 
 def invalid_tok(rng, res, nres):
     """a rule IsValidRule rejects: negative threshold, empty Resource, associated with empty RefResource, undefined RelationStrategy"""
-    k = rng.randrange(4)
+    k = rng.randrange(5)
     thr, iv = fb(rng.choice([0.0, 1.0, 2.0])), rng.choice([0, 1000, 3000])
+    if k == 4:
+        return "nil"
     if k == 0:
         return f"{res},{fb(rng.choice([-1.0, -0.5, -1e-300]))},{iv},-"
     if k == 1:
@@ -165,6 +175,7 @@ def gen_case(rng, cid, force_region=None):
             rules.insert(rng.randrange(len(rules) + 1), throttle_rule(rng, rng.choice(rules)[0]))
     reload_p = rng.choice([0, 0, 0.03, 0.06, 0.12])      # 60% of the cases reload their rules (1..4 times)
     nreloads = 0
+    ncustom = 0
     base = T0 + rng.choice([0, 1, 499, 500, 9999, 10000, rng.randint(0, 10 ** 9), rng.randint(0, 10 ** 5) * 500, rng.randint(0, 10 ** 4) * 10000 - 1])
     now = base
     first_toks = with_invalid(rng, [rule_tok(r) for r in rules], rules[0][0], nres, p=0.08)
@@ -182,8 +193,29 @@ def gen_case(rng, cid, force_region=None):
         x = rng.random()
         _, n, L, Iv = rng.choice(geoms)
         if nreloads < 4 and rng.random() < reload_p:
+            prev_rules = rules
             rules, what = mutate_rules(rng, rules, nres)
             nreloads += 1
+            # rules of the harness' custom generator (15% of the reloads): it issues a request from inside the rebuild, fails, or panics
+            customs = []
+            if rng.random() < 0.15:
+                cres = rng.choice(rules)[0]
+                for _ in range(rng.choice([1, 1, 2])):
+                    ncustom += 1
+                    mode = rng.choice(["e%d.%s" % (cres, rng.choice(["-", "-", 1, 2, 0])), "e%d.-" % cres, "fail", "panic"])
+                    customs.append((cres, "%d,%s,0,-,x%s" % (cres, fb(1000.0 + ncustom), mode)))
+
+            def add_customs(toks, only_res=None):
+                toks = list(toks)
+                for cres, tok in customs:
+                    if only_res is not None and cres != only_res:
+                        continue
+                    pos = [i + 1 for i, t in enumerate(toks) if t.split(",")[0] == str(cres)]
+                    toks.insert(rng.choice(pos + [len(toks)] * 2) if pos else len(toks), tok)
+                return toks
+            aborted = False
+            if rng.random() < 0.04:
+                ops.append("loadres _ %d %s" % (len(rules), " ".join(rule_tok(r) for r in rules)))     # empty resource name: error, no effect
             if rng.random() < 0.45:
                 # flow.LoadRulesOfResource: the (mutated) rules of one resource, sometimes with invalid rules / rules of another
                 # resource mixed in, sometimes an empty list (clear)
@@ -193,16 +225,23 @@ def gen_case(rng, cid, force_region=None):
                     toks, what = [], "loadres-clear"
                     rules = [r for r in rules if r[0] != tr]
                 else:
-                    toks = with_invalid(rng, [rule_tok(r) for r in mine], tr, nres, p=0.35)
+                    toks = add_customs(with_invalid(rng, [rule_tok(r) for r in mine], tr, nres, p=0.35), only_res=tr)
+                    aborted = any("xpanic" in t for t in toks)
                     if rng.random() < 0.2:
                         other = [r for r in rules if r[0] != tr]
                         toks.insert(rng.randrange(len(toks) + 1), rule_tok(rng.choice(other)) if other else f"{tr % (nres + 1) + 1},{fb(1.0)},0,-")
                     what = "loadres:" + what
                     rules = [r for r in rules if r[0] != tr] + mine
+                    if aborted:
+                        rules, what = prev_rules, "loadres-aborted"
                 ops.append("loadres %d %d %s" % (tr, len(toks), " ".join(toks)))
             else:
-                toks = with_invalid(rng, [rule_tok(r) for r in rules], rules[0][0], nres, p=0.15)
+                toks = add_customs(with_invalid(rng, [rule_tok(r) for r in rules], rules[0][0], nres, p=0.15))
                 ops.append("load %d %s" % (len(toks), " ".join(toks)))
+                if any("xpanic" in t for t in toks):
+                    rules, what = prev_rules, "load-aborted"
+            if customs:
+                kinds.append("custom-generator")
             kinds.append(what)
             geoms = [geom(r[2]) for r in rules if len(r) == 4] or [geom(0)]
             if all(r is not focus for r in rules):
@@ -218,8 +257,10 @@ def gen_case(rng, cid, force_region=None):
         elif x < 0.80:
             res = focus[0] if rng.random() < 0.6 else rng.choice(resources + [int(focus[3])] if focus[3] != "-" else resources)
             tv = thr_val(focus[1])
-            tb = int(tv) if 0 <= tv < 1e6 else 3
+            tb = int(tv) if 0 <= tv < 4.2e9 else 3
             b = rng.choice([1, 1, 1, 1, 1, 2, 2, 3, 0, tb, tb + 1, max(0, tb - 1), rng.randint(0, 6), 1000])
+            if tb > 10 ** 6:        # huge thresholds are only reached with batches near the limit
+                b = rng.choice([tb, tb - 1, tb - 10, tb - 25, tb // 2, 1, 5, 10, 15])
             if b == 1 and rng.random() < 0.5:
                 b = "-"                   # plain api.Entry(res): no WithBatchCount, the default batch of 1
             ops.append(f"entry {res} {b}" + type_tok(rng, tprob, pref, res))
@@ -236,7 +277,7 @@ def gen_case(rng, cid, force_region=None):
         else:
             ops.append(f"sum {rng.choice(resources + [nres + 1])}")
     first = [x.split(",") for x in ops[1].split()[2:]]
-    first = [r for r in first if r[0] != "_" and r[3] not in ("_", "?")]
+    first = [r for r in first if len(r) >= 4 and r[0] != "_" and r[3] not in ("_", "?")]
     tags = tuple("throttle" if len(r) == 5 else "%s%s" % (geom(int(r[2]))[0], "/assoc" if r[3] != "-" else "") for r in first)
     return Case(cid, ops, tags=tags + tuple("reload:" + k for k in kinds))
 
@@ -245,6 +286,7 @@ def typed_stats(cases, dist):
     """measure how the resource-type dimension is exercised (typed = carries api.WithResourceType(non-common))"""
     for c in cases:
         rules = [x.split(",") for x in c.ops[1].split()[2:]]
+        rules = [r for r in rules if len(r) >= 4]
         refs = {r[3] for r in rules if r[3] not in ("-", "_", "?")}
         typed, untyped = set(), set()
         for o in c.ops[2:]:
@@ -273,7 +315,7 @@ def gen(ctx, n):
         for t in c.tags:
             dist[t] = dist.get(t, 0) + 1
         rules = [x.split(",") for x in c.ops[1].split()[2:]]
-        rules = [r for r in rules if r[0] != "_" and r[3] not in ("_", "?")]
+        rules = [r for r in rules if len(r) >= 4 and r[0] != "_" and r[3] not in ("_", "?")]
         if any("entry" == o.split()[0] and o.split()[2] == "-" for o in c.ops):
             dist["cases-with-plain-entries-(no-batch-option)"] = dist.get("cases-with-plain-entries-(no-batch-option)", 0) + 1
         if any(o.startswith("loadres ") for o in c.ops):
@@ -355,7 +397,7 @@ def nontrivial(case, impl):
         elif t[0] == "par":
             kinds.append("P" + (r or "").replace("block flow ", "b").replace("pass", "p"))
     if any(st == 3 for st, _ in state.values()):
-        return hash((case.tags, case.ops[1].split()[2:] and tuple(x.split(",", 1)[1] for x in case.ops[1].split()[2:]), "".join(kinds)))
+        return hash((case.tags, case.ops[1].split()[2:] and tuple(x.split(",", 1)[-1] for x in case.ops[1].split()[2:]), "".join(kinds)))
     return None
 
 
